@@ -37,6 +37,9 @@ Definition probe_wiring_ok : bool :=
     ["WithAPIVersionNegotiation()"; "WithHTTPClient(scanner.client)"; "WithScheme(scanner.proto)";
      "WithHost(fmt.Sprintf('tcp://%s:%d',request.DstIP.String(),request.DstPort))"]%string &&
   (docker_new_timeout_ns =? docker_default_timeout_ns) && String.eqb docker_new_proto_from "proto" &&
+  (* one Scanner is shared by all workers of the engine: Scan (and elasticClient.Get) neither write to
+     their receiver nor hand out pointers into it; the moby client is created inside Scan (docker_client_opts) *)
+  strs_eqb elastic_scan_shared_state [] && strs_eqb elastic_get_shared_state [] && strs_eqb docker_scan_shared_state [] &&
   (* CLI: --proto (http or https only, default http) and --timeout go to the scanner *)
   strs_eqb elastic_cli_scanner_args ["opts.proto"; "elastic.WithDataTimeout(opts.timeout)"]%string &&
   strs_eqb docker_cli_scanner_args ["opts.proto"; "docker.WithDataTimeout(opts.timeout)"]%string &&
